@@ -113,73 +113,7 @@ func runC16(c *Ctx) {
 		}
 	}
 
-	// R4 monotone, contiguous application
-	for _, name := range []string{"(*ls.Replica).applyNewLTXFiles", "(*ls.Replica).fillFollowGap"} {
-		const rule = "R4-contiguous-monotone-apply"
-		fn := c.fn(rule, name)
-		if fn == nil {
-			continue
-		}
-		item := vResult(isItem, 0)
-		// currentTXID lives in a captured variable
-		aps := callsTo(fn, nameIs("(*ls.Replica).applyLTXFile"))
-		c.floor(rule, len(aps), 1, "applyLTXFile call in "+name)
-		for _, ap := range aps {
-			info := namedArg(ap, "info")
-			c.check(item(info), rule, name+": applies the listed file", c.pos(ap), "iterator item", "applied file is not the listed one")
-			c.requireGuard(rule, fn, Site{ap, "applyLTXFile(info)"}, cmpFact(vFieldLoad("FileInfo.MinTXID", item), token.LEQ, vPlusOne(vAny()), "info.MinTXID <= currentTXID+1"))
-			c.requireGuard(rule, fn, Site{ap, "applyLTXFile(info)"}, cmpFact(vFieldLoad("FileInfo.MaxTXID", item), token.GTR, vAny(), "info.MaxTXID > currentTXID"))
-			// the bound compared against is the current TXID variable (not another value such as the gap end)
-			for _, e := range factEdges(fn, cmpFact(vFieldLoad("FileInfo.MinTXID", item), token.LEQ, vPlusOne(vAny()), "")) {
-				ifi := lastInstr(e.From).(*ssa.If)
-				f := edgeFact(ifi, e.Succ)
-				other := f.R
-				if vFieldLoad("FileInfo.MinTXID", item)(f.R) {
-					other = f.L
-				}
-				okC := false
-				if b, isB := other.(*ssa.BinOp); isB && b.Op == token.ADD {
-					okC = isCurrentTXID(b.X, ap) || isCurrentTXID(b.Y, ap)
-				}
-				c.check(okC, rule, name+": contiguity is tested against the follower's current TXID", c.pos(ifi), "currentTXID + 1", "the contiguity test compares against a value other than the current TXID (files that do not start right after it could be applied, skipping transactions)")
-			}
-			// currentTXID = info.MaxTXID only on the nil edge of this apply
-			n := 0
-			for _, st := range allStores(fn) {
-				if !vFieldLoad("FileInfo.MaxTXID", item)(st.Val) {
-					continue
-				}
-				if _, isAlloc := st.Addr.(*ssa.Alloc); !isAlloc {
-					continue
-				}
-				if st.Block().Parent() != fn {
-					continue
-				}
-				if !reachable(fn, ap.Block(), nil)[st.Block()] && st.Block() != ap.Block() {
-					// store before the apply (in program order) — still must be guarded
-				}
-				n++
-				c.requireGuard(rule, fn, Site{st, "currentTXID = info.MaxTXID"}, cmpFact(vIs(resultOf(ap, 0)), token.EQL, vNil(), "applyLTXFile err == nil"))
-			}
-			// the same assignment when the variable lives in SSA form: a phi edge
-			for _, phi := range txidVarPhis(fn, vFieldLoad("FileInfo.MaxTXID", item)) {
-				for i, e := range phi.Edges {
-					if _, isPhi := e.(*ssa.Phi); isPhi || !vFieldLoad("FileInfo.MaxTXID", item)(e) {
-						continue
-					}
-					n++
-					c.requireGuard(rule, fn, Site{lastInstr(phi.Block().Preds[i]), "currentTXID = info.MaxTXID"}, cmpFact(vIs(resultOf(ap, 0)), token.EQL, vNil(), "applyLTXFile err == nil"))
-				}
-			}
-			c.floor(rule, n, 1, "currentTXID advance in "+name)
-		}
-		// listings
-		for _, l := range callsTo(fn, isLTXFiles) {
-			if name == "(*ls.Replica).applyNewLTXFiles" {
-				c.check(vConstInt(0)(namedArg(l, "level")) && vPlusOne(vAny())(namedArg(l, "seek")), rule, name+": polls level 0 from currentTXID+1", c.pos(l), "LTXFiles(0, currentTXID+1)", "poll does not start right after the applied TXID")
-			}
-		}
-	}
+	c16Contiguous(c)
 
 	errflowCone(c, c16Config())
 
@@ -523,4 +457,79 @@ func c16Resume(c *Ctx) {
 			c.requireGuard(rule, fn, Site{call, "follow(resume)"}, cmpFact(vResult(nameIs("ls.ReadTXIDFile"), 1), token.EQL, vNil(), "ReadTXIDFile err == nil"))
 		}
 	}
+}
+
+
+// c16Contiguous (R4): files are applied to a followed database only when they are
+// contiguous with and extend its current TXID (shared with C02: the state labelled
+// with a TXID is never a mixture).
+func c16Contiguous(c *Ctx) {
+	// R4 monotone, contiguous application
+	for _, name := range []string{"(*ls.Replica).applyNewLTXFiles", "(*ls.Replica).fillFollowGap"} {
+		const rule = "R4-contiguous-monotone-apply"
+		fn := c.fn(rule, name)
+		if fn == nil {
+			continue
+		}
+		item := vResult(isItem, 0)
+		// currentTXID lives in a captured variable
+		aps := callsTo(fn, nameIs("(*ls.Replica).applyLTXFile"))
+		c.floor(rule, len(aps), 1, "applyLTXFile call in "+name)
+		for _, ap := range aps {
+			info := namedArg(ap, "info")
+			c.check(item(info), rule, name+": applies the listed file", c.pos(ap), "iterator item", "applied file is not the listed one")
+			c.requireGuard(rule, fn, Site{ap, "applyLTXFile(info)"}, cmpFact(vFieldLoad("FileInfo.MinTXID", item), token.LEQ, vPlusOne(vAny()), "info.MinTXID <= currentTXID+1"))
+			c.requireGuard(rule, fn, Site{ap, "applyLTXFile(info)"}, cmpFact(vFieldLoad("FileInfo.MaxTXID", item), token.GTR, vAny(), "info.MaxTXID > currentTXID"))
+			// the bound compared against is the current TXID variable (not another value such as the gap end)
+			for _, e := range factEdges(fn, cmpFact(vFieldLoad("FileInfo.MinTXID", item), token.LEQ, vPlusOne(vAny()), "")) {
+				ifi := lastInstr(e.From).(*ssa.If)
+				f := edgeFact(ifi, e.Succ)
+				other := f.R
+				if vFieldLoad("FileInfo.MinTXID", item)(f.R) {
+					other = f.L
+				}
+				okC := false
+				if b, isB := other.(*ssa.BinOp); isB && b.Op == token.ADD {
+					okC = isCurrentTXID(b.X, ap) || isCurrentTXID(b.Y, ap)
+				}
+				c.check(okC, rule, name+": contiguity is tested against the follower's current TXID", c.pos(ifi), "currentTXID + 1", "the contiguity test compares against a value other than the current TXID (files that do not start right after it could be applied, skipping transactions)")
+			}
+			// currentTXID = info.MaxTXID only on the nil edge of this apply
+			n := 0
+			for _, st := range allStores(fn) {
+				if !vFieldLoad("FileInfo.MaxTXID", item)(st.Val) {
+					continue
+				}
+				if _, isAlloc := st.Addr.(*ssa.Alloc); !isAlloc {
+					continue
+				}
+				if st.Block().Parent() != fn {
+					continue
+				}
+				if !reachable(fn, ap.Block(), nil)[st.Block()] && st.Block() != ap.Block() {
+					// store before the apply (in program order) — still must be guarded
+				}
+				n++
+				c.requireGuard(rule, fn, Site{st, "currentTXID = info.MaxTXID"}, cmpFact(vIs(resultOf(ap, 0)), token.EQL, vNil(), "applyLTXFile err == nil"))
+			}
+			// the same assignment when the variable lives in SSA form: a phi edge
+			for _, phi := range txidVarPhis(fn, vFieldLoad("FileInfo.MaxTXID", item)) {
+				for i, e := range phi.Edges {
+					if _, isPhi := e.(*ssa.Phi); isPhi || !vFieldLoad("FileInfo.MaxTXID", item)(e) {
+						continue
+					}
+					n++
+					c.requireGuard(rule, fn, Site{lastInstr(phi.Block().Preds[i]), "currentTXID = info.MaxTXID"}, cmpFact(vIs(resultOf(ap, 0)), token.EQL, vNil(), "applyLTXFile err == nil"))
+				}
+			}
+			c.floor(rule, n, 1, "currentTXID advance in "+name)
+		}
+		// listings
+		for _, l := range callsTo(fn, isLTXFiles) {
+			if name == "(*ls.Replica).applyNewLTXFiles" {
+				c.check(vConstInt(0)(namedArg(l, "level")) && vPlusOne(vAny())(namedArg(l, "seek")), rule, name+": polls level 0 from currentTXID+1", c.pos(l), "LTXFiles(0, currentTXID+1)", "poll does not start right after the applied TXID")
+			}
+		}
+	}
+
 }
